@@ -33,7 +33,8 @@ void bus_connection_remove_match_rule (DBusConnection *c, BusMatchRule *r) { c->
 static int add_reg_ok = 1, n_registered;
 dbus_bool_t bus_connection_add_match_rule (DBusConnection *c, BusMatchRule *r) { if (!add_reg_ok) return 0; n_registered++; return 1; }
 dbus_bool_t bus_connection_is_active (DBusConnection *c) { return 1; }
-const char *bus_connection_get_name (DBusConnection *c) { return c->id == 0 ? ":1.0" : ":1.1"; }
+/* unique names of the two connections: opaque strings here; the first is a strict prefix of possible rule values so that a prefix comparison and an exact one differ */
+const char *bus_connection_get_name (DBusConnection *c) { return c->id == 0 ? ":" : ":b"; }
 void *_dbus_hash_table_lookup_string (DBusHashTable *h, const char *k) { return 0; }
 dbus_bool_t _dbus_hash_table_remove_string (DBusHashTable *h, const char *k) { return 0; }
 void _dbus_hash_iter_init (DBusHashTable *t, DBusHashIter *i) { }
@@ -157,12 +158,14 @@ void harness (void)
   {
     int who = vf_range (0, 1);
     struct DBusConnection *gone = who ? &c_b : &c_a;
-    for (i = 0; i < L; i++) VF_ASSUME (!((q[i].flags & BUS_MATCH_SENDER) && q[i].sender[0] == ':'));   /* unique-name sender rules: separate clause */
     bus_matchmaker_disconnected (&mm, gone);
     l = _dbus_list_get_first_link (pool);
     for (i = 0; i < L; i++)
       {
         if (q[i].owner == who) { VF_ASSERT (r[i]->refcount == 1, "a disconnected connection's rule is dropped"); continue; }
+        /* rules of OTHER connections that name the vanished connection's unique name as sender can never match again and are dropped too — exactly those */
+        if ((q[i].flags & BUS_MATCH_SENDER) && q[i].sender[0] == ':' && r_streq (q[i].sender, bus_connection_get_name (gone)))
+          { VF_ASSERT (r[i]->refcount == 1, "a rule naming the vanished unique name as sender is dropped"); VF_WITNESS_OPT ("rule about the vanished name dropped"); continue; }
         VF_ASSERT (l != 0 && l->data == r[i] && r[i]->refcount == 2, "rules of other connections stay, in order");
         if (l) l = _dbus_list_get_next_link (pool, l);
       }
